@@ -460,9 +460,18 @@ type FuncContract struct {
 	Opaque    bool
 	Mode      string
 	Unroll    map[int]int
+	GhostSets []*GhostSet
 	Lemmas    []*Clause // "assert" hints, unused
 	TrustNote string
 	recvName  string
+}
+
+// GhostSet: "ghostset L := R" — a ghost assignment performed at function exit (R is
+// evaluated in the exit state, old() refers to the entry state).
+type GhostSet struct {
+	LSrc, RSrc string
+	L, R       *SExpr
+	Props      []string
 }
 
 type PureFunc struct {
@@ -489,7 +498,7 @@ type Contracts struct {
 	Assume []string // textual list of assumed contracts for evidence
 }
 
-var kwRe = regexp.MustCompile(`^(func|iface|requires|ensures|modifies|loop|pred|pure|ghost|trusted|inline|props|nobounds|free|mode|opaque)\b`)
+var kwRe = regexp.MustCompile(`^(func|iface|requires|ensures|modifies|loop|pred|pure|ghostset|ghost|trusted|inline|props|nobounds|free|mode|opaque)\b`)
 
 func loadContracts(root string, pkgDirs map[string]string) (*Contracts, error) {
 	cs := &Contracts{Funcs: map[string]*FuncContract{}, Pures: map[string]*PureFunc{}}
@@ -605,6 +614,21 @@ func (cs *Contracts) parseFile(pkgPath, fn, data string) error {
 			} else {
 				cur.Ensures = append(cur.Ensures, c)
 			}
+		case "ghostset":
+			parts := strings.SplitN(rest, ":=", 2)
+			if len(parts) != 2 || cur == nil {
+				return fmt.Errorf("%s: bad ghostset %s", fn, ln)
+			}
+			l, err := ParseSpecExpr(strings.TrimSpace(parts[0]))
+			if err != nil {
+				return fmt.Errorf("%s: %s: %v", fn, ln, err)
+			}
+			r, err := ParseSpecExpr(strings.TrimSpace(parts[1]))
+			if err != nil {
+				return fmt.Errorf("%s: %s: %v", fn, ln, err)
+			}
+			cur.GhostSets = append(cur.GhostSets, &GhostSet{LSrc: strings.TrimSpace(parts[0]), RSrc: strings.TrimSpace(parts[1]), L: l, R: r})
+			cur.Modifies = append(cur.Modifies, &Clause{Kind: "modifies", Src: strings.TrimSpace(parts[0]), E: l, Line: ln})
 		case "modifies":
 			for _, part := range splitTop(rest) {
 				e, err := ParseSpecExpr(part)
